@@ -12,6 +12,12 @@ CLAIMED = {
         "stateful / model-based property testing (proptest histories + per-step invariant oracle)",
         "DESIGN.md §4 C01",
     ),
+    "C03": (
+        "Three generated-input searches against an independent exact reference (integer bisection on the stableswap invariant polynomial over 18-decimal-normalised reserves, 1024-bit): (a) compute_swap's StableSwap arm through the hook over amp x six decimal settings x reserves (imbalance up to 2^40) x offers: ask reserve after >= curve point y* minus 6 slope-scaled base units, gross <= reserve, fee floors, gross monotone in the offer; (b) the LP-mint function over balanced / one-sided / arbitrary deposits: invariant per LP must not fall, up to 6 base units of dust on each reserve; (c) histories on a live stableswap pair (real factory, native and cw20): the same bounds on real reserve deltas, withdrawals <= pro-rata, deposit-then-withdraw keeps D* per LP. Exploration; the known raw-decimals mint defect is matched by a model of the defect and excluded so the search continues behind it.",
+        "Dust constant K=6 (swap clause: granted by the property text; deposit clause: 6 base units on each reserve = the integer granularity of the pool's own D) calibrated on the unchanged tree, measured maxima written to the evidence. Only successful computations judged. Histories leave the domain (< 1 whole token of an asset) are cut there.",
+        "property-based testing (proptest) against an exact bisection reference; stateful histories on the live pair",
+        "DESIGN.md §4 C03",
+    ),
     "C02": (
         "Generated-input search (proptest, 16 deterministic shards) over the whole documented domain [1,2^128)^3 x valid fee triples x decimals, judged against an independent exact 1024-bit reference: gross floor, fee floors, strict bound, totality inside the 128-bit domain, there-and-back with the case's fees and with zero fees, gross monotone in the offer. Exploration, not proof: millions of cases per quick run, hundreds of millions thorough, with boundary constants and extreme-ratio shapes weighted in.",
         "Trusts refmath.rs (bnum integers, self-tested at start-up) and that commands::swap / queries::query_simulation call the hooked compute_swap (cross-checked by C14). A panic is an abort.",
